@@ -1,4 +1,260 @@
 package main
 
-// further extension points (histories, concurrency)
-func runOpExt4(f []string) (string, bool) { return "", false }
+import (
+	"io"
+	"reflect"
+	"sort"
+	"strconv"
+	"strings"
+
+	m2 "github.com/goark/go-cvss/v2/metric"
+	m3 "github.com/goark/go-cvss/v3/metric"
+	"github.com/goark/go-cvss/v3/report"
+)
+
+// ---- histories (C15): sequences of operations on a pool of objects inside one process.
+//
+//	N3B / N2E …      new object from the constructor (version, level); result "ok"
+//	D<i>,<hex>       Decode(<hex>) into slot i (any outcome); result r=.. e=..
+//	Q<i>             all queries on slot i (dump)
+//	V<i>,<l>         slot for the level-l view of slot i (BaseMetrics / TemporalMetrics); result nil|ok|same
+//	R<i>,<tag>       build the report of slot i (v3) in the language; result: its fields
+//	X<i>             export the report of slot i with a fixed template
+type slot struct {
+	ver   int
+	level string
+	b3    *m3.Base
+	t3    *m3.Temporal
+	e3    *m3.Environmental
+	b2    *m2.Base
+	t2    *m2.Temporal
+	e2    *m2.Environmental
+}
+
+func (s *slot) dump() string {
+	if s.ver == 3 {
+		switch s.level {
+		case "B":
+			return dump3("B", s.b3, nil, nil)
+		case "T":
+			return dump3("T", s.t3.BaseMetrics(), s.t3, nil)
+		default:
+			return dump3("E", s.e3.BaseMetrics(), s.e3.TemporalMetrics(), s.e3)
+		}
+	}
+	switch s.level {
+	case "B":
+		return dump2(s.b2, nil, nil)
+	case "T":
+		return dump2(s.t2.BaseMetrics(), s.t2, nil)
+	default:
+		return dump2(s.e2.BaseMetrics(), s.e2.TemporalMetrics(), s.e2)
+	}
+}
+
+func newSlot(ver int, level string) *slot {
+	s := &slot{ver: ver, level: level}
+	if ver == 3 {
+		switch level {
+		case "B":
+			s.b3 = m3.NewBase()
+		case "T":
+			s.t3 = m3.NewTemporal()
+		default:
+			s.e3 = m3.NewEnvironmental()
+		}
+	} else {
+		switch level {
+		case "B":
+			s.b2 = m2.NewBase()
+		case "T":
+			s.t2 = m2.NewTemporal()
+		default:
+			s.e2 = m2.NewEnvironmental()
+		}
+	}
+	return s
+}
+
+func (s *slot) decode(vec string) string {
+	var isNil bool
+	var err error
+	if s.ver == 3 {
+		switch s.level {
+		case "B":
+			r, e := s.b3.Decode(vec)
+			isNil, err = r == nil, e
+		case "T":
+			r, e := s.t3.Decode(vec)
+			isNil, err = r == nil, e
+		default:
+			r, e := s.e3.Decode(vec)
+			isNil, err = r == nil, e
+		}
+	} else {
+		switch s.level {
+		case "B":
+			r, e := s.b2.Decode(vec)
+			isNil, err = r == nil, e
+		case "T":
+			r, e := s.t2.Decode(vec)
+			isNil, err = r == nil, e
+		default:
+			r, e := s.e2.Decode(vec)
+			isNil, err = r == nil, e
+		}
+	}
+	return "r=" + retTag(isNil, err) + " e=" + errTag(err)
+}
+
+func (s *slot) view(l string) (*slot, string) {
+	v := &slot{ver: s.ver, level: l}
+	if s.ver == 3 {
+		switch {
+		case s.level == "T" && l == "B":
+			v.b3 = s.t3.BaseMetrics()
+		case s.level == "E" && l == "B":
+			v.b3 = s.e3.BaseMetrics()
+		case s.level == "E" && l == "T":
+			v.t3 = s.e3.TemporalMetrics()
+		default:
+			return nil, "noview"
+		}
+	} else {
+		switch {
+		case s.level == "T" && l == "B":
+			v.b2 = s.t2.BaseMetrics()
+		case s.level == "E" && l == "B":
+			v.b2 = s.e2.BaseMetrics()
+		case s.level == "E" && l == "T":
+			v.t2 = s.e2.TemporalMetrics()
+		default:
+			return nil, "noview"
+		}
+	}
+	return v, "ok"
+}
+
+func (s *slot) report(tag string) (interface{}, bool) {
+	if s.ver != 3 {
+		return nil, false
+	}
+	opt := report.WithOptionsLanguage(parseTag(tag))
+	switch s.level {
+	case "B":
+		return report.NewBase(s.b3, opt), true
+	case "T":
+		return report.NewTemporal(s.t3, opt), true
+	default:
+		return report.NewEnvironmental(s.e3, opt), true
+	}
+}
+
+const fixedTemplate = "{{.Vector}}|{{.SeverityValue}}|{{.BaseScore}}"
+
+func runHistory(h string) string { return runHistoryOn(nil, h) }
+
+// runHistoryOn runs a history on a pool that starts with the given (shared) slots.
+func runHistoryOn(shared []*slot, h string) string {
+	pool := append([]*slot{}, shared...)
+	outs := []string{}
+	for _, op := range strings.Split(h, ";") {
+		if op == "" {
+			continue
+		}
+		res := func() (res string) {
+			defer func() {
+				if r := recover(); r != nil {
+					res = "PANIC"
+				}
+			}()
+			get := func(s string) *slot {
+				i, err := strconv.Atoi(s)
+				if err != nil || i < 0 || i >= len(pool) {
+					return nil
+				}
+				return pool[i]
+			}
+			switch op[0] {
+			case 'N':
+				if len(op) != 3 {
+					return "bad"
+				}
+				pool = append(pool, newSlot(int(op[1]-'0'), op[2:]))
+				return "ok"
+			case 'D':
+				a := strings.SplitN(op[1:], ",", 2)
+				s := get(a[0])
+				if s == nil || len(a) != 2 {
+					return "bad"
+				}
+				return s.decode(unhx(a[1]))
+			case 'Q':
+				s := get(op[1:])
+				if s == nil {
+					return "bad"
+				}
+				return strings.ReplaceAll(s.dump(), " ", "&")
+			case 'V':
+				a := strings.SplitN(op[1:], ",", 2)
+				s := get(a[0])
+				if s == nil || len(a) != 2 {
+					return "bad"
+				}
+				v, r := s.view(a[1])
+				if v != nil {
+					pool = append(pool, v)
+				}
+				return r
+			case 'R':
+				a := strings.SplitN(op[1:], ",", 2)
+				s := get(a[0])
+				if s == nil || len(a) != 2 {
+					return "bad"
+				}
+				rep, ok := s.report(a[1])
+				if !ok {
+					return "noreport"
+				}
+				fields := []string{}
+				dumpFields("", reflect.ValueOf(rep), &fields)
+				sort.Strings(fields)
+				return strings.Join(fields, "&")
+			case 'X':
+				s := get(op[1:])
+				if s == nil {
+					return "bad"
+				}
+				rep, ok := s.report("en")
+				if !ok {
+					return "noreport"
+				}
+				var r io.Reader
+				var err error
+				switch x := rep.(type) {
+				case *report.BaseReport:
+					r, err = x.ExportWithString(fixedTemplate)
+				case *report.TemporalReport:
+					r, err = x.ExportWithString(fixedTemplate)
+				case *report.EnvironmentalReport:
+					r, err = x.ExportWithString(fixedTemplate)
+				}
+				return resTag(r, err)
+			}
+			return "bad"
+		}()
+		outs = append(outs, res)
+	}
+	return strings.Join(outs, ";")
+}
+
+func runOpExt4(f []string) (string, bool) {
+	switch f[0] {
+	case "H":
+		if len(f) < 2 {
+			return "", false
+		}
+		return runHistory(f[1]), true
+	}
+	return runOpExt5(f)
+}
